@@ -997,6 +997,15 @@ func (env *Env) callExpr(x *CCall) EV {
 			env.errf("addr() of a non-addressable expression %s", x.Args[0])
 		}
 		return EV{T: v.T, Typ: types.NewPointer(v.Typ)}
+	case "deref":
+		// deref(p): the memory cell a typed pointer designates
+		need(1)
+		v := env.rvalue(arg(0))
+		pt, ok := v.Typ.Underlying().(*types.Pointer)
+		if v.Typ == nil || !ok {
+			env.errf("deref() needs a typed pointer")
+		}
+		return EV{T: v.T, Typ: pt.Elem(), Addr: true}
 	case "visited":
 		// visited(k): key k has already been produced by the map iteration of the enclosing loop
 		need(1)
